@@ -71,14 +71,14 @@ fn run_build(r: &Runner, name: &str, cmd: &mut Command) {
 pub fn c19_builds(r: &Runner) {
     let target = format!("{}/target/c19", crate::verif_dir());
     let mut c = Command::new("cargo");
-    c.current_dir("/repo")
+    c.current_dir(crate::repo_dir())
         .args(["+nightly", "build", "-Zbuild-std=core", "--target", "x86_64-unknown-none", "--no-default-features", "--target-dir"])
         .arg(format!("{}/none", target))
         .env_remove("RUSTFLAGS")
         .env("CARGO_NET_OFFLINE", "true");
     run_build(r, "no_std-core-only: cargo +nightly build -Zbuild-std=core --target x86_64-unknown-none --no-default-features", &mut c);
     let mut c = Command::new("cargo");
-    c.current_dir("/repo")
+    c.current_dir(crate::repo_dir())
         .args(["build", "--no-default-features", "--offline", "--target-dir"])
         .arg(format!("{}/host", target))
         .env_remove("RUSTFLAGS");
